@@ -1,3 +1,3 @@
 SPECIFICATION Spec
-INVARIANTS OnlyRequested RefusedBeforeReading SvnFromFile Emit
+INVARIANTS OnlyRequested RefusedBeforeReading SvnFromFile ShapesAllNamed Emit
 CHECK_DEADLOCK FALSE
